@@ -178,7 +178,10 @@ def called_event_registrations(repo):
     init = cls.methods["__init__"]
     found = {}
     state_regs = []
-    for c in calls_in(init.node):
+    from .. import normal
+
+    init_n = normal.normalise(repo, init)[0]  # registrations written as a loop over constant names are the single statements
+    for c in calls_in(init_n):
         if isinstance(c.func, ast.Attribute) and c.func.attr == "register" and c.args:
             recv = c.func.value
             txt = norm(recv)
@@ -191,7 +194,10 @@ def called_event_registrations(repo):
                     for k in calls_in(hm.node):
                         if call_name(k) == "self.trigger_collection_events" and k.args and isinstance(k.args[0], ast.List):
                             evs += [norm(e).replace("CollectionEventId.", "").replace(".value", "") for e in k.args[0].elts]
-                found.setdefault(tcall.args[0].value, []).extend(evs)
+                known, tname = rules.literal(init_n, tcall.args[0]) if tcall.args else (False, None)
+                if not known:
+                    raise AnalysisError(f"StateModelsCapability.__init__: transition name `{norm(tcall.args[0]) if tcall.args else ''}` of a `called` registration is not a literal")
+                found.setdefault(tname, []).extend(evs)
             else:
                 state_regs.append((txt, h))
     return found, state_regs
@@ -327,8 +333,11 @@ def check_probe(ctx):
     ok = len(probe) == 1 and all(cfg.dominates(probe[0], s) for s in succ)
     ctx.ob("C11.P2", q, ok, "the probe sends S1F1 (are_you_there) before success" if ok else "success does not follow an S1F1 probe", key="probe", where=f.where)
     init = cls.methods["__init__"]
-    starts = [c for c in calls_in(init.node) if call_name(c) == "self._control_state.start"]
-    cfgi = cfg_of(init.node)
+    from .. import normal
+
+    init_n = normal.normalised(ctx, init)
+    starts = [c for c in calls_in(init_n) if call_name(c) == "self._control_state.start"]
+    cfgi = cfg_of(init_n)
     sn = [n for n in cfgi.real_nodes() if any(c == "self._control_state.start" for c in n.call_names())]
     regs = [n for n in cfgi.real_nodes() if any(isinstance(c.func, ast.Attribute) and c.func.attr == "register" for c in n.calls)]
     ok = len(starts) == 1 and all(cfgi.dominates(r, sn[0]) for r in regs)
